@@ -326,8 +326,10 @@ def c05(m, h, i, s):
             f = funding_owed(s.pre, v, pre)
             if f != 0:
                 m.hit("withdraw-with-funding", h, i)
-            if bal(s.obs, snd) - bal(s.pre, snd) != amt:
-                m.bad(h, i, "withdraw_wallet", f"wallet delta {bal(s.obs, snd) - bal(s.pre, snd)} != requested {amt}")
+            # (coins the caller attached to the call - native collateral only - left the wallet with it and stay in the vault)
+            att = int(s.toks[2])
+            if bal(s.obs, snd) - bal(s.pre, snd) != amt - att:
+                m.bad(h, i, "withdraw_wallet", f"wallet delta {bal(s.obs, snd) - bal(s.pre, snd)} != requested {amt} - attached {att}")
             if post["margin"] != pre["margin"] - amt - f:
                 m.bad(h, i, "withdraw_margin", f"stored margin {pre['margin']} -> {post['margin']}, expected -{amt} - funding {f}")
             if post["fc"] is None or post["fc"] < 0:
@@ -410,7 +412,8 @@ def c06(m, h, i, s):
     penalty = q_exch * I(s.pre, "e.liqfee") // D
     half = penalty // 2
     ifa = I(s.pre, "e.ifund")
-    liq_delta = bal(s.obs, snd) - bal(s.pre, snd)
+    # (coins the liquidator attached to the call - native collateral only - left the wallet with it and stay in the vault)
+    liq_delta = bal(s.obs, snd) - bal(s.pre, snd) + int(s.toks[2])
     if_delta = bal(s.obs, ifa) - bal(s.pre, ifa)
     if post is None:
         m.hit("full" + ("-overspread" if s.pre.get(f"v{v}.overspread") == "1" else ""), h, i)
